@@ -11,12 +11,18 @@ PROP = "C15"
 
 
 def native_witness_search(limit_s=60):
-    """Witness search on the real functions against the top-level contract: exhaustive over small texts/chunkings."""
+    """Witness search on the real functions against the top-level contract: exhaustive over small texts/chunkings,
+    empty chunks and the empty chunk list included."""
     import time
     from nunavut.jinja import CodeGenerator
     t0 = time.time()
     alphabet = ["a", " ", "\r", "\n"]
     n = 0
+    for chunks in ([], [""], ["", ""]):
+        n += 1
+        bad = emit_violation(CodeGenerator, chunks)
+        if bad:
+            return {"input": chunks, "chunks": chunks, **bad, "evaluations": n}
     for total in range(1, 5):
         for text in itertools.product(alphabet, repeat=total):
             text = "".join(text)
@@ -29,12 +35,61 @@ def native_witness_search(limit_s=60):
                     else:
                         cur += ch
                 chunks.append(cur)
-                n += 1
-                bad = emit_violation(CodeGenerator, chunks)
-                if bad:
-                    return {"chunks": chunks, "text": text, **bad, "evaluations": n}
+                variants = [chunks, chunks + [""], [""] + chunks]
+                if len(chunks) > 1:
+                    variants.append(chunks[:1] + [""] + chunks[1:])
+                for v in variants:
+                    n += 1
+                    bad = emit_violation(CodeGenerator, v)
+                    if bad:
+                        return {"input": v, "chunks": v, "text": text, **bad, "evaluations": n}
             if time.time() - t0 > limit_s:
                 return None
+    native_witness_search.evaluations = n
+    return None
+
+
+def trim_witness():
+    from nunavut._postprocessors import TrimTrailingWhitespace
+    pp = TrimTrailingWhitespace()
+    alphabet = ["a", " ", "\t", "\u00a0", "\u3000", "\x0c", "\x85", "\u2003", "\r"]
+    n = 0
+    for total in range(0, 4):
+        for text in itertools.product(alphabet, repeat=total):
+            line = "".join(text)
+            for le in ("\n", "\r\n", ""):
+                n += 1
+                got = pp((line, le))
+                want = (line.rstrip(), le)  # str.rstrip strips exactly the str.isspace() characters
+                if tuple(got) != want:
+                    return {"input": [line, le], "why": f"returned {got!r}, contract: {want!r}", "evaluations": n}
+    trim_witness.evaluations = n
+    return None
+
+
+def limit_witness():
+    from nunavut._postprocessors import LimitEmptyLines
+    n = 0
+    for N in range(0, 4):
+        for total in range(0, 8):
+            for lines in itertools.product(["", "x"], repeat=total):
+                n += 1
+                pp = LimitEmptyLines(N)
+                run = 0
+                empties_in = 0
+                for ln in lines:
+                    got = tuple(pp((ln, "\n")))
+                    empties_in = empties_in + 1 if ln == "" else 0
+                    if ln != "" and got != (ln, "\n"):
+                        return {"input": {"N": N, "lines": list(lines)}, "why": f"non-empty line {ln!r} altered to {got!r}", "evaluations": n}
+                    if ln == "":
+                        want = ("", "") if empties_in > N else (ln, "\n")
+                        if got != want:
+                            return {"input": {"N": N, "lines": list(lines)}, "why": f"empty line #{empties_in} of a run: got {got!r}, contract {want!r}", "evaluations": n}
+                    run = 0 if ln != "" else (run + 1 if got == ("", "\n") else run)
+                    if run > N:
+                        return {"input": {"N": N, "lines": list(lines)}, "why": f"{run} consecutive empty lines let through with limit {N}", "evaluations": n}
+    limit_witness.evaluations = n
     return None
 
 
@@ -48,7 +103,10 @@ def emit_violation(CodeGenerator, chunks):
 
     import io
     out = io.StringIO()
-    CodeGenerator._generate_with_line_buffer(out, iter(chunks), [Rec()])
+    try:
+        CodeGenerator._generate_with_line_buffer(out, iter(chunks), [Rec()])
+    except Exception as ex:  # the contract has no exceptional exit
+        return {"events": events, "why": f"raised {type(ex).__name__}: {ex}"}
     text = "".join(chunks)
     final = False
     for line, le in events:
@@ -75,7 +133,10 @@ def copy_violation(content):
     with tempfile.TemporaryDirectory() as d:
         src, dst = pathlib.Path(d) / "in.h", pathlib.Path(d) / "out.h"
         src.write_bytes(content.encode())
-        SupportGenerator._copy_header_using_line_pps(None, src, dst, [Rec()])
+        try:
+            SupportGenerator._copy_header_using_line_pps(None, src, dst, [Rec()])
+        except Exception as ex:  # the contract has no exceptional exit
+            return {"events": events, "why": f"raised {type(ex).__name__}: {ex}"}
         text = io.open(src, "r", encoding="utf-8").read()  # universal-newline view of the resource
         out = dst.read_text()
     final = False
@@ -94,17 +155,21 @@ def copy_violation(content):
 def copy_witness_search():
     n = 0
     for total in range(1, 6):
-        for text in itertools.product(["a", "\r", "\n"], repeat=total):
+        for text in itertools.product(["a", "\r", "\n", "\x0c", "\u2028"], repeat=total):
             n += 1
             bad = copy_violation("".join(text))
             if bad:
-                return {"content": "".join(text), **bad, "evaluations": n}
+                return {"input": "".join(text), "content": "".join(text), **bad, "evaluations": n}
+    copy_witness_search.evaluations = n
     return None
 
 
 def replay_file(path):
     body = json.load(open(path))
     w = body.get("witness")
+    if w and isinstance(w.get("input"), dict) and "N" in w["input"]:
+        print("limiter input", w["input"], "->", limit_witness())
+        return 1
     if w and "content" in w:
         bad = copy_violation(w["content"])
         print("resource content:", repr(w["content"]), "->", "VIOLATES" if bad else "ok", bad or "")
@@ -152,32 +217,16 @@ def main():
     eng.intrinsics["for:PPList"] = lambda it, obj: PPListProto(it, obj)
     eng.used("line_pps: an arbitrary finite list of arbitrary line post-processors")
 
-    witness_cache = {}
-
-    def on_fail(r):
-        # a failed obligation with a model: search a concrete failing input on the real code (top-level contract)
-        if r.ob.function.endswith("_generate_with_line_buffer"):
-            if "w" not in witness_cache:
-                witness_cache["w"] = native_witness_search()
-            w = witness_cache["w"]
-            detail = f"{r.ob.name} not discharged"
-            if w:
-                detail += f"; real code on chunks {w['chunks']!r}: {w['why']} (bad event {w.get('bad_event')!r})"
-            return report.Failure(r.ob.name.split("/p")[0], r.ob.kind, detail,
-                                  {"witness": w, "model": r.model, "solver_output": r.raw[:3000], "smt2": r.ob.smt2()}, bool(w))
-        if r.ob.function.endswith("_copy_header_using_line_pps"):
-            if "c" not in witness_cache:
-                witness_cache["c"] = copy_witness_search()
-            w = witness_cache["c"]
-            detail = f"{r.ob.name} not discharged"
-            if w:
-                detail += f"; real code on resource content {w['content']!r}: {w['why']}"
-            return report.Failure(r.ob.name.split("/p")[0], r.ob.kind, detail,
-                                  {"witness": w, "model": r.model, "solver_output": r.raw[:3000], "smt2": r.ob.smt2()}, bool(w))
-        return report.Failure(r.ob.name.split("/p")[0], r.ob.kind, f"{r.ob.name} not discharged; model {dict(list(r.model.items())[:6])}",
-                              {"model": r.model, "solver_output": r.raw[:3000], "smt2": r.ob.smt2()}, False)
-
-    driver.verify_contracts(run, eng, contracts, on_fail)
+    witness = {"CodeGenerator._generate_with_line_buffer": native_witness_search,
+               "SupportGenerator._copy_header_using_line_pps": copy_witness_search,
+               "TrimTrailingWhitespace.__call__": trim_witness,
+               "LimitEmptyLines.__call__": limit_witness}
+    driver.verify_contracts(run, eng, contracts, witness=witness)
+    if args.tier == "thorough":
+        for name, fn in witness.items():
+            w = fn()
+            run.add_bounded(f"{name}: native evaluation of the top-level contract on the real function (CPython cross-check)",
+                            "small texts / chunkings / line sequences, see props/c15.py", getattr(fn, "evaluations", 0), w is None, str(w or ""))
     run.trust("z3 4.8.12 / z3 5.1.0 / cvc5 1.0.3 (SMT-LIB strings)", "E-PY symbolic semantics of the Python subset (vk/epy.py)",
               "Lean lemma L1 (uniqueness of the line decomposition) -- see lean/L1.lean")
     run.assume("SMT-LIB Unicode strings (code points <= 0x2FFFF) stand for Python str",
